@@ -245,6 +245,33 @@ fn containers(seed: u64, tier: Tier) -> Vec<(String, Logical)> {
                     },
                 ));
             }
+            if p == 2 && k % 2 == 1 {
+                // the same alternatives in a one-file edition that holds the second-listed one
+                // only: the first-listed pack of id 1 is a file of its own at its recorded location
+                out.push((
+                    format!("c11-alternative-first-outside-p{p}-{}{suffix}", comp.name()),
+                    Logical {
+                        comp,
+                        packaging: Packaging::Concat,
+                        n_packs: p,
+                        contents: contents_clone(&contents),
+                        schema: SchemaSpec {
+                            key_prefix: 2,
+                            store: StoreKind::Plain,
+                            variants: false,
+                            key_pad: 0,
+                        },
+                        dedup: false,
+                        aux_seed: rng.next_u64(),
+                        opts: gen::LogicalOpts {
+                            alternative_of_pack1: true,
+                            concat_leave_out: 1,
+                            keep_left_out: true,
+                            ..Default::default()
+                        },
+                    },
+                ));
+            }
             if p >= 2 && k % 3 == 0 {
                 // the last pack is recorded under a URL (loose), or left out of a one-file "light
                 // edition" whose packs are all recorded with an empty location (concat)
@@ -460,6 +487,16 @@ struct Image {
     always_missing: u32,
     /// packs (bit p-1) left out of the one-file edition whose file lies beside it
     left_out_beside: u32,
+    /// packs (bit p-1) of a one-file edition that are NOT in the file but at their recorded
+    /// location beside it: they come and go like the packs of a loose container
+    outside: u32,
+}
+
+impl Image {
+    /// is pack `p` a file of its own at its recorded location?
+    fn own_file(&self, p: u16) -> bool {
+        !self.embedded || self.outside & (1 << (p - 1)) != 0
+    }
 }
 
 fn apply_fault(dir: &Path, img: &Image, case: &Case) {
@@ -472,7 +509,7 @@ fn apply_fault(dir: &Path, img: &Image, case: &Case) {
         if img.embedded && img.empty_locations {
             continue;
         }
-        if img.embedded {
+        if !img.own_file(p) {
             // the recorded location of an embedded pack: leave it empty, put a directory there, or
             // a different valid pack (a stale file)
             match case.kind {
@@ -519,13 +556,13 @@ fn apply_fault(dir: &Path, img: &Image, case: &Case) {
                 let bytes = if let (1, Some((_, b))) = (p, alt) {
                     b.clone()
                 } else { match other {
+                    // (a sibling that lives inside the one-file edition has no file of its own)
                     Some(q) => img
                         .files
                         .iter()
                         .find(|(n, _)| *n == img.pack_file[&q])
-                        .unwrap()
-                        .1
-                        .clone(),
+                        .map(|f| f.1.clone())
+                        .unwrap_or_else(|| img.foreign.clone()),
                     None => img.foreign.clone(),
                 } };
                 // replace atomically (new inode) so that an already opened handle keeps the old file
@@ -705,7 +742,7 @@ fn run_case(dir: &Path, img: &Image, case: &Case) -> Vec<String> {
         let pos = 130.min(b.len() - 1);
         b[pos] ^= 0x5a;
         std::fs::write(dir.join(name), b).unwrap();
-    } else if case.damaged != 0 && img.embedded {
+    } else if case.damaged != 0 && !img.own_file(case.damaged) {
         let want = img.pristine.get(&format!("pack[{}]/uuid", case.damaged)).map(|l| l.short());
         let name = &img.files[0].0;
         let mut b = std::fs::read(dir.join(name)).unwrap();
@@ -790,7 +827,7 @@ fn run_case(dir: &Path, img: &Image, case: &Case) -> Vec<String> {
     // record: only the locator that goes by uuid can find it)
     // (likewise a loose pack recorded under a URL: its file is in the directory under a plain name)
     let left_out_found = |p: u16| case.uuid_locator && (!img.embedded || img.left_out_beside & (1 << (p - 1)) != 0);
-    let missing = |p: u16| (img.always_missing & (1 << (p - 1)) != 0 && !left_out_found(p)) || (!img.embedded && case.subset & (1 << (p - 1)) != 0);
+    let missing = |p: u16| (img.always_missing & (1 << (p - 1)) != 0 && !left_out_found(p)) || (img.own_file(p) && case.subset & (1 << (p - 1)) != 0);
     observe_contents(&container, img, case, &order, &missing, case.instant == Instant::AfterFirstAccess, "", &mut bad);
     if case.instant == Instant::HealedAfterFirstAnswers {
         // put every pack back where the manifest says and ask again, on the same container
@@ -807,7 +844,7 @@ fn run_case(dir: &Path, img: &Image, case: &Case) -> Vec<String> {
                     let _ = std::fs::remove_file(&path);
                 }
             }
-            if !img.embedded {
+            if img.own_file(p) {
                 let bytes = &img.files.iter().find(|(n, _)| n == name).unwrap().1;
                 std::fs::write(&path, bytes).unwrap();
             }
@@ -922,8 +959,9 @@ pub fn worker_main(args: &Args, w: usize, n: usize) -> ! {
             foreign: foreign.clone(),
             embedded,
             empty_locations: logical.opts.empty_locations,
-            always_missing: if embedded { logical.opts.concat_leave_out } else { logical.opts.url_located },
-            left_out_beside: if embedded && logical.opts.keep_left_out { logical.opts.concat_leave_out } else { 0 },
+            always_missing: if embedded && logical.opts.keep_left_out && !logical.opts.empty_locations { 0 } else if embedded { logical.opts.concat_leave_out } else { logical.opts.url_located },
+            left_out_beside: if embedded && logical.opts.keep_left_out && logical.opts.empty_locations { logical.opts.concat_leave_out } else { 0 },
+            outside: if embedded && logical.opts.keep_left_out && !logical.opts.empty_locations { logical.opts.concat_leave_out } else { 0 },
         });
         let cases = cases_for(&img.model, simcore::prng::hash_label(args.seed, &name, 0), img.left_out_beside);
         let total = cases.len() as u64;
